@@ -1008,12 +1008,10 @@ func randomHeightVoteSet(c *vf.Ctx, i int, r *rand.Rand) {
 			t := []types.SignedMsgType{types.PrevoteType, types.PrecommitType}[r.IntN(2)]
 			peer := peers[r.IntN(4)]
 			s := genVote(r, rg, h, rnd, byte(t), nil)
-			if s.Nil || s.R != rnd || !types.IsVoteTypeValid(types.SignedMsgType(s.T)) { // the round/type select the set; keep them
+			if s.Nil || s.R < 0 || !types.IsVoteTypeValid(types.SignedMsgType(s.T)) { // HeightVoteSet documents: vote must not be nil; invalid types are ignored
 				s = vspec{Val: s.Val, Addr: s.Addr, Signer: s.Signer, Blk: s.Blk, H: s.H, R: rnd, T: byte(t), Tamper: s.Tamper}
-				if s.Val < 0 {
-					s.Val = 0
-				}
 			}
+			rnd, t = s.R, types.SignedMsgType(s.T) // the vote's own round and type select the vote set
 			if len(past) > 0 && r.IntN(8) == 0 {
 				s = past[r.IntN(len(past))]
 				rnd, t = s.R, types.SignedMsgType(s.T)
